@@ -16,11 +16,12 @@ import os
 
 import vlib
 
-KINDS = ["t1issuer", "t5issuer", "t2issuer", "t3issuer", "batch", "eckey", "edkey", "edfirst", "ecfirst", "t2raw", "t3raw"]
+KINDS = ["t1issuer", "t5issuer", "t2issuer", "t3issuer", "batch", "eckey", "edkey", "edfirst", "ecfirst", "t2raw", "t3raw", "t1odd"]
 # "edfirst"/"ecfirst": the same programs as edkey/eckey, each in a process of its own where the program's concurrent
 # calls are the first use of the package (lazy package-level tables behind sync.Once are initialised by racing goroutines)
+# "t1odd": the type-1 issuer programs with requests whose element is in uncompressed form (refused - concurrently too)
 # "t2raw"/"t3raw": the issuer programs on an issuer whose RSA key was assembled from its components (nothing precomputed)
-GEN_CFG = {"edfirst": "edkey", "ecfirst": "eckey", "t2raw": "t2issuer", "t3raw": "t3issuer"}
+GEN_CFG = {"edfirst": "edkey", "ecfirst": "eckey", "t2raw": "t2issuer", "t3raw": "t3issuer", "t1odd": "t1issuer"}
 
 
 def describe(e, case):
